@@ -343,6 +343,8 @@ class Normalizer:
             return X(e.args[1])
         if isinstance(e.func, ast.Attribute) and e.func.attr == 'copy' and not e.args and not e.keywords:
             return X(e.func.value)
+        if fn == 'builtins.dict' and len(e.args) == 1 and not e.keywords:
+            return X(e.args[0])      # dict(m) is a shallow copy of a mapping: same content
         if fn in ('builtins.getattr', 'builtins.hasattr') and len(e.args) >= 2:
             name = X(e.args[1])
             if name.startswith("'") and name.endswith("'") and name[1:-1].isidentifier():
@@ -360,6 +362,8 @@ class Normalizer:
             inl = self._inline_unique(e.func.attr, e.func.value, node, bound, depth)
             if inl is not None:
                 return inl
+        if fn == 'builtins.map' and len(e.args) == 2:
+            return f"GEN({X(e.args[0])}({self.iter_elem(e.args[1], (), node, bound, depth + 1)}))"
         args = [X(a) for a in e.args]
         kws = sorted(f"{k.arg}={X(k.value)}" if k.arg else f"**{X(k.value)}" for k in e.keywords)
         if fn.startswith('builtins.'):
